@@ -115,10 +115,13 @@ func VerifC14_Spec() {
 			vxMkdir(p)
 			req = append(req, p)
 			wants = append(wants, want{p, p})
-		case 2: // a symlink to a directory elsewhere
+		case 2: // a symlink to a directory elsewhere - possibly to one of the sandbox's own paths
 			link := S + "/l" + string(rune('0'+i))
-			target := S + "/t" + string(rune('0'+i))
-			vxMkdir(target)
+			targets := []string{S + "/t" + string(rune('0'+i)), "/tmp", "/proc", "/dev", "/sys"}
+			target := targets[vxPick(len(targets))]
+			if target == targets[0] {
+				vxMkdir(target)
+			}
 			vxMkSymlink(link, target)
 			vxFSEntry(link, 0, target)
 			req = append(req, link)
@@ -184,6 +187,21 @@ func VerifC14_Spec() {
 		}
 	}
 	vxAssert("module-proxy-disabled", proxyOff && !otherProxy)
+	// the sandbox's own mount points are never shadowed by host data
+	own := true
+	for _, r := range vxReserved() {
+		n := 0
+		for _, m := range spec.Mounts {
+			if m.Destination == r {
+				n++
+				if r != "/app/sfw" && r != "/gocache" {
+					own = own && m.Type != "bind"
+				}
+			}
+		}
+		own = own && n <= 1
+	}
+	vxAssert("reserved-destinations-hold-only-sandbox-mounts", own)
 	order := true
 	for i, a := range spec.Mounts {
 		for j, b := range spec.Mounts {
